@@ -85,14 +85,14 @@ Definition doc_states (c : cfgT) (f : fsT) (tab : list kline) (um : users_map) :
       end) order []
   end.
 
-Definition step_spec (c : cfgT) (w : wobs) (s : step) : bool :=
-  if negb (plain_env (s_env s)) then true else
-  let f := wo_fs w in let w' := after w s in
+Definition step_spec (c : cfgT) (w : wobs) (v : sview) : bool :=
+  if negb (plain_env (v_env v)) then true else
+  let f := wo_fs w in let w' := v_after v in
   let tab := ks_tab (wo_ks w) in
-  match s_cmd s, s_res s, s_layers s with
+  match v_cmd v, v_res v, v_layers v with
   | CProbe, ROk, Some los =>
     (* status / list: the reported state of every layer is the documented one *)
-    let ds := doc_states c f tab (s_users s) in
+    let ds := doc_states c f tab (v_users v) in
     forallb (fun lo => match assoc_state ds (lo_name lo) with
                        | Some d => lo_state lo =? d
                        | None => false end) los
@@ -113,7 +113,7 @@ Definition step_spec (c : cfgT) (w : wobs) (s : step) : bool :=
   | _, _, _ => true
   end.
 
-Definition spec (c : case) : bool := along (step_spec (c_cfg c)) (w0 c) (c_steps c).
+Definition spec (c : case) : bool := along_views (step_spec (c_cfg c)) (w0 c) (c_steps c).
 Definition wf := LC.wf.
 Definition kf (c : case) : N := 0.
 Definition verdict (c : case) : N := mkverdict (wf c) (LC.corr c) (spec c) (kf c).
